@@ -567,6 +567,18 @@ func makeReqsFor(inf map[string]caseInfo, metas map[string]reqMeta) func(scen.Ca
 			}
 			mk(value{`{"a":`, "reject", ""}, false)
 			mk(value{``, "odd", ""}, true)
+			// the same bodies once more without a declared length (chunked / streamed request)
+			for i, n0 := 0, len(out); i < n0; i++ {
+				if out[i].Body == "" {
+					continue
+				}
+				rq := out[i]
+				rq.ID = fmt.Sprintf("%s#%d", c.ID, n)
+				n++
+				rq.UnknownLength = true
+				metas[rq.ID] = metas[out[i].ID]
+				out = append(out, rq)
+			}
 			return out
 		}
 		for _, v := range ci.K.Vals() {
